@@ -288,12 +288,16 @@ func genC12(c *Ctx) {
 		c.Fail("c12.source", none, f.key, f.what)
 	}
 	// the wall-clock scenarios of the silence rule (12 s each) overlap everything else
-	alive := make([]*c12Job, 5)
-	aliveDone := make(chan int, 5)
+	nAlive := 6
+	if c.Thorough() {
+		nAlive = 7 // + the pinger scenario with a FIN (the pinger needs two periods to notice)
+	}
+	alive := make([]*c12Job, nAlive)
+	aliveDone := make(chan int, nAlive)
 	for mode := range alive {
 		mode := mode
 		alive[mode] = &c12Job{kind: "c12.seq", class: []string{"seq|alive|pong-keeps-alive", "seq|alive|nonce-keeps-alive", "seq|alive|silent-reconnects",
-			"seq|outage|short", "seq|outage|long"}[mode]}
+			"seq|outage|short", "seq|outage|long", "seq|pinger|survives-reconnect|rst", "seq|pinger|survives-reconnect|fin"}[mode]}
 		go func() {
 			j := alive[mode]
 			acts := sx.L(sx.L(sx.A("alive"), sx.Nat(mode)))
@@ -302,6 +306,9 @@ func genC12(c *Ctx) {
 			var bad string
 			if mode < 3 {
 				events, fails, bad = runC12Alive(mode)
+			} else if mode >= 5 {
+				acts = sx.L(sx.L(sx.A("pinger"), sx.Nat(6-mode)))
+				events, fails, bad = runC12Pinger(mode == 5)
 			} else {
 				acts = sx.L(sx.L(sx.A("outage"), sx.Nat(mode-3)))
 				events, fails, bad = runC12Outage(mode == 4)
